@@ -733,6 +733,15 @@ int main(int argc, char** argv)
       int d = slot(tok[1], MAXDATA);
       free(datas[d].p);
       datas[d] = unhex(tok[2]);
+      /* the scanned buffer is exactly as long as the data: one byte read behind it is a heap overflow for the sanitizer
+         (the terminating byte that unhex() appends for source texts would hide it) */
+      if (datas[d].n > 0)
+      {
+        uint8_t* exact = (uint8_t*) malloc(datas[d].n);
+        memcpy(exact, datas[d].p, datas[d].n);
+        free(datas[d].p);
+        datas[d].p = exact;
+      }
     }
     else if (!strcmp(op, "datarep"))
     {
